@@ -189,3 +189,27 @@ Proof.
   - exists w_special_head. eexists. exists (w_record "abcdef"), site_nil_table.
     split; [vc|]. split; [vc|]. split; vc.
 Qed.
+
+(* ---- sites that interact: the constructors do depend on them, and verify rejects them ---- *)
+(* a metric key equal to the FIRST orchestration key: the registry gets the label key_app twice *)
+Definition w_key_overlap : config := w_config TNil (OrByKeySet [bs "app"; bs "level"] (bs "t")) [bs "host"; bs "app"] w_out.
+(* a rewriteFields chain on a HIDDEN field: NewEventSerializer builds it all the same *)
+Definition w_hidden_chain (l : list rewriter) : config :=
+  w_config TNil w_orch [bs "host"]
+    [w_pair (OFluentd [bs "host"] [bs "class"] [(bs "class", l)] mode_compressed (bs "localhost:24224") true (BigOk 500))].
+
+Lemma w_interactions :
+  (exists e, verify fixed_quirks w_key_overlap = Err e) /\
+  (exists p, construct fixed_quirks w_key_overlap = Ok p /\ pipeline_safe p = false /\
+             run_record x_trivial p 0 (w_record "x") = Panic site_metric_label) /\
+  (exists e, verify fixed_quirks (w_hidden_chain [RwInline (bs "log")]) = Err e) /\
+  construct fixed_quirks (w_hidden_chain [RwInline (bs "log")]) = Panic site_rewriter_order /\
+  (exists e, verify fixed_quirks (w_hidden_chain [RwCopy; RwUnescape]) = Err e) /\
+  construct fixed_quirks (w_hidden_chain [RwCopy; RwUnescape]) = Panic site_rewriter_order /\
+  (exists e, verify fixed_quirks (w_hidden_chain [RwInline (bs "nosuch"); RwCopy]) = Err e) /\
+  construct fixed_quirks (w_hidden_chain [RwInline (bs "nosuch"); RwCopy]) = Panic site_must_locator /\
+  verify fixed_quirks (w_hidden_chain [RwInline (bs "log"); RwCopy]) = Ok tt.
+Proof.
+  split; [verr|]. split; [eexists; split; [vc|split; vc]|]. split; [verr|]. split; [vc|]. split; [verr|]. split; [vc|].
+  split; [verr|]. split; vc.
+Qed.
